@@ -5,6 +5,8 @@ SPEC = {
     "allowed_axioms": [],
     "extract": {
         "LibTw2.Model.Demo": ["writer_new", "write_chunk", "write_all", "read_all", "header_view"],
+        "LibTw2.Model.DemoHL": ["hwriter_new", "hstep", "hrun", "hread_all", "osize_of"],
+        "LibTw2.Model.Snap": ["uuid_of_bytes", "uuid_to_bytes"],
     },
     "components": [{"bin": "demo", "driver": "drv_demo", "timeout": {"quick": 900, "thorough": 3000}}],
     "release": False,
